@@ -123,7 +123,7 @@ def _run(ctx, rng, thorough, T):
     B = lambda n: os.path.join(bindir, n)
     # ---------------------------------------------------------------- key material
     hosts = hexs(b'example.com,www.example.com')
-    kinds = ['ec-sec1-p256', 'ec-pkcs8-p256', 'ec-pkcs8-p384', 'ed25519-pkcs8', 'ed25519-pkcs8-enc']
+    kinds = ['ec-sec1-p256', 'ec-pkcs8-p256', 'ec-pkcs8-p384', 'ed25519-pkcs8', 'ed25519-pkcs8-enc', 'ec-sec1-params-p256']
     res = ctx.go([f'setup.pem {k} {hosts} {hexs(b"s3cret")}' for k in kinds])
     keys = {}
     for k, r in zip(kinds, res):
@@ -196,7 +196,7 @@ def _run(ctx, rng, thorough, T):
         rec(ctx, op, json.dumps(sorted((k.decode('latin1'), v) for k, v in got.items())), json.dumps(sorted((k.decode('latin1'), v) for k, v in expected.items())))
         # ------------------------------------------------------------ B. sign-bundle signatures-section
         if ti % 2 == 0:
-            kk = keys[rng.choice(['ec-sec1-p256', 'ec-pkcs8-p256', 'ec-pkcs8-p384'])]
+            kk = keys[['ec-sec1-params-p256', 'ec-pkcs8-p384', 'ec-sec1-p256', 'ec-pkcs8-p256'][(ti // 2) % 4]]
             certpem, keypem = wfile(f'c{ti}.pem', kk['cert']), wfile(f'k{ti}.pem', kk['key'])
             ocsp = wfile(f'o{ti}.der', b'dummy-ocsp')
             rc3, out3, err3 = sh([B('gen-certurl'), '-pem', certpem, '-ocsp', ocsp])
@@ -319,7 +319,7 @@ def _run(ctx, rng, thorough, T):
     n = 6 if not thorough else 40
     for i in range(n):
         ver = rng.choice(['1b1', '1b2', '1b3'])
-        kname = rng.choice(['ec-sec1-p256', 'ec-pkcs8-p256', 'ec-pkcs8-p384'])
+        kname = ['ec-sec1-params-p256', 'ec-sec1-p256', 'ec-pkcs8-p256', 'ec-pkcs8-p384'][i % 4]      # every accepted PEM form, in turn
         kk = keys[kname]
         certpem, keypem = wfile(f'sx{i}c.pem', kk['cert']), wfile(f'sx{i}k.pem', kk['key'])
         rc, chainbytes, _ = sh([B('gen-certurl'), '-pem', certpem, '-ocsp', ocsp])
